@@ -179,10 +179,58 @@ func (e *c08Env) freshEst() estimator.Estimator {
 	return est
 }
 
-// oracleEstimatePod: the pod's estimate as a function of the pod and the configuration only.
+// oracleFactors: the scaling factors in force for a pod, from the documented configuration semantics
+// (the harness decodes the pod annotation itself and does not call the extension helper under
+// check): the configured estimatedScalingFactors; with allowCustomizeEstimation a pod's
+// load-estimated-scaling-factors annotation — a JSON object of integer percentages — overrides
+// them per resource and the configured factors fill in what it does not mention; an annotation that
+// does not decode (syntax error OR a value of the wrong type, "returns nil if unmarshal error") or
+// that is empty is no setting at all: the configured factors apply.
+func (e *c08Env) oracleFactors(pod *corev1.Pod) map[corev1.ResourceName]int64 {
+	conf := e.pristine.EstimatedScalingFactors
+	if !e.pristine.AllowCustomizeEstimation {
+		return conf
+	}
+	s := pod.Annotations[extension.AnnotationCustomEstimatedScalingFactors]
+	if s == "" {
+		return conf
+	}
+	custom := map[corev1.ResourceName]int64{}
+	if err := json.Unmarshal([]byte(s), &custom); err != nil || len(custom) == 0 {
+		return conf
+	}
+	merged := make(map[corev1.ResourceName]int64, len(conf)+len(custom))
+	for k, v := range conf {
+		merged[k] = v
+	}
+	for k, v := range custom {
+		merged[k] = v
+	}
+	return merged
+}
+
+// oracleEstimatePod: the pod's estimate as a function of the pod and the configuration only: a new
+// estimator instance, configured with exactly the factors in force for this pod (oracleFactors) and
+// with per-pod customisation switched off, applied to a copy of the pod without the annotation.
 func (e *c08Env) oracleEstimatePod(pod *corev1.Pod) []int64 {
 	out := make([]int64, len(e.vec))
-	list, err := e.freshEst().EstimatePod(pod.DeepCopy())
+	factors := e.oracleFactors(pod)
+	args := e.oracleArgs()
+	args.AllowCustomizeEstimation = false
+	args.EstimatedScalingFactors = nil
+	if factors != nil {
+		args.EstimatedScalingFactors = make(map[corev1.ResourceName]int64, len(factors))
+		for k, v := range factors {
+			args.EstimatedScalingFactors[k] = v
+		}
+	}
+	est, err := estimator.NewDefaultEstimator(args, nil)
+	if err != nil {
+		panic(fmt.Sprintf("harness: estimator: %v", err))
+	}
+	bare := pod.DeepCopy()
+	delete(bare.Annotations, extension.AnnotationCustomEstimatedScalingFactors)
+	list, err := est.EstimatePod(bare)
 	if err == nil {
 		for i, name := range e.vec {
 			out[i] = list[name]
@@ -363,6 +411,11 @@ type c08Pod struct {
 
 	reservedOn string      // outstanding Reserve
 	resObj     *corev1.Pod // the assumed pod handed to Reserve
+
+	// assignedAt: the (fake) clock value read by the harness immediately before it delivered the event
+	// that placed the pod on its current node (Reserve, informer add of a bound pod, update that
+	// shows a (new) node). The pod was not placed there before that instant.
+	assignedAt time.Time
 }
 
 func (p *c08Pod) state() string {
@@ -508,7 +561,9 @@ func c08NewIncarnation(r *kit.Rand, p *c08Pod, useR3 bool) *corev1.Pod {
 	ann := map[string]string{}
 	if r.Pct(15) {
 		ann[extension.AnnotationCustomEstimatedScalingFactors] = kit.Pick(r, []string{`{"cpu":60}`, `{"cpu":60}`, `{"cpu":100,"memory":100}`, `{"cpu":100,"memory":100}`, `{"memory":1}`, `not-json`,
-			`{}`, `{"cpu":0}`, `{"cpu":150,"memory":200}`, `{"verif.io/r3":50}`, `{"cpu":60,"unknown.io/x":10}`})
+			`{}`, `{"cpu":0}`, `{"cpu":150,"memory":200}`, `{"verif.io/r3":50}`, `{"cpu":60,"unknown.io/x":10}`,
+			// syntactically valid JSON with a value of the wrong type (a string, a ratio): not a setting
+			`{"cpu":"50","memory":70}`, `{"cpu":0.85}`, `{"memory":70,"cpu":"50"}`, `{"cpu":50,"memory":[70]}`, `[{"cpu":50}]`})
 	}
 	if r.Pct(12) {
 		ann[extension.AnnotationCustomEstimatedSecondsAfterPodScheduled] = kit.Pick(r, []string{"0", "120", "120", "30", "30", "-1", "x", "1", "+45", "100000000"})
@@ -649,6 +704,9 @@ func (m *c08Model) nextVersion(p *c08Pod, obj *corev1.Pod) *corev1.Pod {
 func (m *c08Model) evInformerAdd(c *kit.Case, tag string, p *c08Pod, obj *corev1.Pod) {
 	m.nextVersion(p, obj)
 	c.Op("%sOnAdd %s", tag, c08PodStr(obj))
+	if obj.Spec.NodeName != "" {
+		p.assignedAt = m.env.clk.Now()
+	}
 	m.env.cache.OnAdd(obj, p.inc%2 == 0) // isInInitialList must not matter
 	p.inf, p.lastInf = obj, obj
 }
@@ -656,7 +714,9 @@ func (m *c08Model) evInformerAdd(c *kit.Case, tag string, p *c08Pod, obj *corev1
 func (m *c08Model) evReserve(c *kit.Case, tag string, p *c08Pod, node string) {
 	assumed := p.inf.DeepCopy()
 	assumed.Spec.NodeName = node
-	c.Op("%sReserve node=%s now=%s %s", tag, node, c08T(m.env.clk.Now()), c08PodStr(assumed))
+	now := m.env.clk.Now()
+	c.Op("%sReserve node=%s now=%s %s", tag, node, c08T(now), c08PodStr(assumed))
+	p.assignedAt = now
 	if st := m.env.pl.Reserve(context.TODO(), nil, assumed, node); st != nil {
 		c.Fail("C08/reserve/status", "Reserve returned %v", st)
 	}
@@ -672,7 +732,11 @@ func (m *c08Model) evUnreserve(c *kit.Case, tag string, p *c08Pod) {
 func (m *c08Model) evUpdate(c *kit.Case, tag, what string, p *c08Pod, newObj *corev1.Pod) {
 	old := p.inf
 	m.nextVersion(p, newObj)
-	c.Op("%sOnUpdate[%s] now=%s old.node=%q new: %s", tag, what, c08T(m.env.clk.Now()), old.Spec.NodeName, c08PodStr(newObj))
+	now := m.env.clk.Now()
+	c.Op("%sOnUpdate[%s] now=%s old.node=%q new: %s", tag, what, c08T(now), old.Spec.NodeName, c08PodStr(newObj))
+	if before, _ := p.assigned(); newObj.Spec.NodeName != "" && newObj.Spec.NodeName != before {
+		p.assignedAt = now // placed on a (new) node by this very event
+	}
 	m.env.cache.OnUpdate(old, newObj)
 	p.inf, p.lastInf = newObj, newObj
 	if p.reservedOn != "" && newObj.Spec.NodeName == p.reservedOn {
@@ -992,6 +1056,11 @@ func c08GenMetric(r *kit.Rand, env *c08Env, node string, ver int, now time.Time,
 				// boundary "assigned within the report interval": updateTime-interval vs timestamp
 				b := h.ts.Add(interval)
 				cands = append(cands, b.Add(-time.Second), b, b, b.Add(time.Second), b.Add(-time.Nanosecond), b.Add(time.Nanosecond))
+				if t := b.Truncate(time.Second); !t.Equal(b) {
+					// koordlet's updateTime has second resolution on the wire: the window start is the whole
+					// second just before / after a sub-second placement
+					cands = append(cands, t, t, t.Add(time.Second))
+				}
 			}
 			if !h.dl.IsZero() {
 				// boundary "estimation deadline after updateTime"
@@ -1123,13 +1192,15 @@ func (md c08Mode) class() string {
 
 // c08Assigned is one pod assigned to the node under check, with everything the statement needs.
 type c08Assigned struct {
-	p    *c08Pod
-	obj  *corev1.Pod
-	ts   time.Time // assignment timestamp
-	dl   time.Time // estimation deadline (zero = none)
-	dlK  string    // which window gives the deadline (see oracleDeadline)
-	e    []int64   // the estimator's estimate of obj, vectorised
-	prod bool
+	p   *c08Pod
+	obj *corev1.Pod
+	ts  time.Time // assignment timestamp
+	dl  time.Time // estimation deadline (zero = none)
+	dlK string    // which window gives the deadline (see oracleDeadline)
+	// the cache's internal assignment time lies before the instant the placing event was delivered
+	tsClamped bool
+	e         []int64 // the estimator's estimate of obj, vectorised
+	prod      bool
 }
 
 // assignedOn lists the pods the shadow model assigns to node (slot order). The assignment
@@ -1163,10 +1234,17 @@ func (m *c08Model) assignedOn(node string) []c08Assigned {
 			}
 		}
 		if a.ts.IsZero() {
+			// No PodScheduled=True time: the assignment time is the scheduler-internal time of the placement.
+			// The cache may have renewed it at a later update of the pod (taken over from podInfos), but a
+			// pod is never taken to be placed EARLIER than the harness delivered the placing event.
 			if t, ok := live[p.uid]; ok {
 				a.ts = t
 			} else {
 				a.ts = env.clk.Now()
+			}
+			if a.ts.Before(p.assignedAt) {
+				a.ts = p.assignedAt
+				a.tsClamped = true
 			}
 		}
 		a.dl, a.dlK = env.oracleDeadline(obj, a.ts)
@@ -1459,6 +1537,12 @@ func c08CheckNode(c *kit.Case, or *kit.Rand, m *c08Model, node string, modes []c
 		}
 		if m.podEstimateDiffers(node, pods) {
 			return "C08/estimate/pod-estimate-not-from-scratch"
+		}
+		for _, a := range pods {
+			if a.tsClamped {
+				// diagnosis only: the cache dates the placement before the placing event was delivered
+				return "C08/estimate/placement-dated-before-placement"
+			}
 		}
 		if m.windowDiffers(node, pods) {
 			return "C08/estimate/estimation-window-not-honoured"
